@@ -1439,3 +1439,49 @@ def _replay_listing(fn_name):
 
 for _fn in ("list_coolers", "list_scool_cells", "is_scool_file", "is_multires_file"):
     CUSTOM["cooler.fileops:" + _fn] = _replay_listing(_fn)
+
+
+# ---------------------------------------------------------------- ArrayLoader.__iter__ (C01)
+def _replay_arrayloader(inputs, ghost=None):
+    """the real loader on a family of small dense matrices (zeros, diagonal-only, full, asymmetric, empty rows, all-zero row
+    spans) x every chunk size 1..n+1; judged against the property: the chunks together list exactly the non-zero cells of the
+    upper triangle, each once, in row-major order, with its value, and each chunk only rows of its own span"""
+    import numpy as np
+    import pandas as pd
+    from cooler.create import ArrayLoader
+    rng = np.random.RandomState(3)
+    mats = [np.zeros((0, 0), int), np.zeros((3, 3), int), np.diag([1, 2, 3, 4]), np.arange(1, 17).reshape(4, 4)]
+    for n in (5, 6):
+        a = rng.randint(0, 4, (n, n)) * (rng.rand(n, n) < 0.5)
+        a[2, :] = 0
+        mats.append(a)
+    b = np.zeros((6, 6), int)
+    b[4, 5] = 7
+    b[0, 0] = 1
+    mats.append(b)
+    viol, tried = [], 0
+    for A in mats:
+        n = A.shape[0]
+        bins = pd.DataFrame({"chrom": ["c"] * n, "start": list(range(n)), "end": list(range(1, n + 1))})
+        want = [(r, c, int(A[r, c])) for r in range(n) for c in range(r, n) if A[r, c] != 0]
+        for cs in range(1, n + 2):
+            tried += 1
+            try:
+                chunks = list(ArrayLoader(bins, A, cs))
+            except Exception as e:
+                viol.append(f"n={n} chunksize={cs}: raised {type(e).__name__}: {e}")
+                continue
+            got = [(int(x), int(y), int(z)) for ch in chunks for x, y, z in zip(ch["bin1_id"], ch["bin2_id"], ch["count"])]
+            if got != want:
+                viol.append(f"n={n} chunksize={cs} matrix={A.tolist()}: loader lists {got[:8]}, the non-zero upper cells are {want[:8]}")
+            for k, ch in enumerate(chunks):
+                rows = [int(x) for x in ch["bin1_id"]]
+                if any(not (k * cs <= r < (k + 1) * cs) for r in rows):
+                    viol.append(f"n={n} chunksize={cs}: chunk {k} holds rows {sorted(set(rows))}")
+            if len(viol) >= 6:
+                break
+    return {"inputs_used": {"family": "7 small matrices x every chunk size", "cases_tried": tried}, "returned": None,
+            "violations": viol[:6], "violates_contract": bool(viol)}
+
+
+CUSTOM["cooler.create._ingest:ArrayLoader.__iter__"] = _replay_arrayloader
